@@ -494,6 +494,48 @@ def _op_ivp(ctx, op, state):
     ctx.log.add(ctx.step, "ivp", mode, method, hash_array(oe[1]))
 
 
+def _op_scaled(ctx, op, state):
+    """A problem posed on a small length scale L (an interval [0, 5 L] with L down to a nanometre in metres) and solved
+    directly and through the inverse of a linear map that rescales it to a dimensionless variable - an admissible map
+    with a tiny slope.  Errors are measured relative to the size of y and of y' (which is O(1/L))."""
+    from grid.ode import solve_ode_bvp, solve_ode_ivp
+    from grid.rtransform import InverseRTransform, LinearFiniteRTransform, LinearInfiniteRTransform
+
+    _, L, kind, mi, seed = op
+    if kind == "bvp" and mi % 3 == 0:
+        mi = 1 + seed % 2  # (in the raw variable y' is O(1/L): the collocation solver's absolute tolerance is out of reach there)
+    r = np.random.RandomState(seed % (2**32))
+    A, w, ph = r.uniform(0.5, 1.5), r.uniform(0.5, 2.0), r.uniform(0.0, 6.0)
+    c0, c1 = r.uniform(1.0, 3.0), r.uniform(0.5, 2.0)
+    u = lambda t: A * np.sin(w * t / L + ph) + (t / L) ** 2  # noqa: E731
+    du = lambda t: A * w / L * np.cos(w * t / L + ph) + 2 * t / L**2  # noqa: E731
+    ddu = lambda t: -A * (w / L) ** 2 * np.sin(w * t / L + ph) + 2 / L**2  # noqa: E731
+    coeffs = [c0, c1 * L, L**2]
+    fx = lambda t: coeffs[2] * ddu(t) + coeffs[1] * du(t) + coeffs[0] * u(t)  # noqa: E731
+    a, b = 0.0, 5.0 * L
+    tf = (None, InverseRTransform(LinearFiniteRTransform(a, b)), InverseRTransform(LinearInfiniteRTransform(a, b, b=5.0)))[mi % 3]
+    sig = f"scaled:{kind}:{('direct', 'inv_linfinite', 'inv_lininf')[mi % 3]}"
+    ctx.rng.set_behaviour("uniform", seed)
+    if kind == "ivp":
+        oc = _outcome(lambda: solve_ode_ivp((a, b), fx, coeffs, [float(u(a)), float(du(a))], transform=tf, method="DOP853", no_derivatives=False, rtol=1e-10, atol=1e-10))
+    else:
+        oc = _outcome(lambda: solve_ode_bvp(np.linspace(a, b, 40), fx, coeffs, [[0, 0, float(u(a))], [1, 0, float(u(b))]], transform=tf, tol=1e-8, max_nodes=MAX_NODES, no_derivatives=False))
+    if oc[0] == "raise":
+        ctx.violate("scaled-raise", kind, f"{sig}:{type(oc[1]).__name__}", f"solve_ode_{kind} raised {oc[1]!r} for a problem on [0, {b:g}] (length scale {L:g}) through {sig}")
+        return
+    te = np.linspace(a, b, 33)[1:-1]
+    oe = _outcome(lambda: np.atleast_2d(np.asarray(oc[1](te.copy()), dtype=float)))
+    if oe[0] == "raise":
+        ctx.violate("scaled-raise", kind, f"{sig}:eval:{type(oe[1]).__name__}", f"the solution callable raised {oe[1]!r} (length scale {L:g}, {sig})")
+        return
+    e0 = float(np.max(np.abs(oe[1][0] - u(te)))) / max(1.0, float(np.max(np.abs(u(te)))))
+    e1 = float(np.max(np.abs(oe[1][1] - du(te)))) / float(np.max(np.abs(du(te)))) if oe[1].shape[0] > 1 else 0.0
+    if not np.isfinite(e0 + e1) or max(e0, e1) > 1e-5:
+        ctx.violate("accuracy", kind, sig, f"problem on the length scale {L:g}: relative error {e0:.3g} in y, {e1:.3g} in y' ({sig})")
+    ctx.probes.hit("problem-on-small-length-scale")
+    ctx.log.add(ctx.step, "scaled", kind, mi % 3, L, hash_array(oe[1]))
+
+
 def _op_perturb(ctx, op, state):
     ctx.rng.perturb(op[1], op[2])
     ctx.faults.hit("rng:perturb-history")
@@ -584,6 +626,10 @@ class OdeSeamEngine:
                 ops.append(["ivp", rng.choice(["tf", "tf", "direct"]), "DOP853", 0, rng.random() < 0.3 and "multiexp" in str(P["tspec"]), rng.choice([None, None, "int_list"]), rng.random() < 0.25])
             else:
                 ops.append(["perturb", rng.randrange(200), rng.choice([None, 0, 7])])
+        if rng.random() < 0.2:
+            # (one run in five of this submode also solves a problem posed on a small length scale)
+            for _ in range(rng.randint(1, 3)):
+                ops.insert(rng.randint(0, len(ops)), ["scaled", rng.choice([1e-3, 1e-6, 1e-9, 1e-9]), rng.choice(["ivp", "bvp"]), rng.randrange(3), rng.randrange(10**6)])
         return {"engine": self.NAME, "seed": seed, "submode": submode, "problem": P, "ops": ops}
 
     def generate(self, seed, submode):
@@ -636,7 +682,7 @@ class OdeSeamEngine:
             for op in spec["ops"]:
                 ctx.step += 1
                 try:
-                    {"bvp": _op_bvp, "ivp": _op_ivp, "perturb": _op_perturb}[op[0]](ctx, op, state)
+                    {"bvp": _op_bvp, "ivp": _op_ivp, "perturb": _op_perturb, "scaled": _op_scaled}[op[0]](ctx, op, state)
                 except Exception as exc:  # noqa: BLE001
                     # library code called directly by the harness (transform helpers, held callables) failed
                     if not library_raised(exc):
